@@ -8,12 +8,13 @@ PENDING = {}
 pp = os.path.join(ROOT, "tools", "not_applicable.json")
 if os.path.exists(pp):
     PENDING = json.load(open(pp))
+READY = set(open(os.path.join(ROOT, "tools", "ready.txt")).read().split())
 checks, na = [], []
 engines = {}
 for p in props:
     pid = p["id"]
     path = os.path.join(ROOT, "checks", pid + ".py")
-    if not os.path.exists(path) or pid in PENDING:
+    if not os.path.exists(path) or pid in PENDING or pid not in READY:
         na.append({"property_id": pid, "reason": PENDING.get(pid, "check not built yet; the planned bounded-exhaustive design is DESIGN.md section 2 (%s)" % pid)})
         continue
     m = importlib.import_module("checks." + pid)
